@@ -73,7 +73,7 @@ type scriptCase struct {
 	Cancel   int64       `json:"cancel"` // instant the context ends; -1: never; another negative value: before the call
 	Deadline bool        `json:"deadline"`
 	Body     string      `json:"body"`            // N | R | O | G<k>
-	Manifest string      `json:"manifest"`        // "" | M (auth client) | m (plain client)
+	Manifest string      `json:"manifest"`        // "" | M (auth client) | m (plain client) | I / i: the same with an OCI image manifest
 	UnknownLen bool      `json:"unknown_len"`     // leave Request.ContentLength at 0 ("unknown") although the body is not empty
 	Pred     string      `json:"pred"`            // "" = retry.DefaultPredicate; else <code><R|S|F>,...;d<rule>;e<rule>
 	Method   string      `json:"method"`          // HTTP method ("" = PUT)
@@ -247,6 +247,8 @@ func (b behaviour) shape() *errShape {
 	}
 	return nil
 }
+
+const indexedManifestJSON = `{"schemaVersion":2,"mediaType":"application/vnd.oci.image.manifest.v1+json","config":{"mediaType":"application/vnd.oci.empty.v1+json","digest":"sha256:44136fa355b3678a1146ad16f7e8649e94fb4fc21fe77e8310c060f61caaff8a","size":2},"layers":[]}`
 
 var errPred = errors.New("scripted: predicate refuses this answer")
 
@@ -564,7 +566,11 @@ func execScript(t *testing.T, c *scriptCase) scriptObs {
 		}
 		defer cancel()
 		pol := c.policy()
-		hc := &http.Client{Transport: &retry.Transport{Base: srv, Policy: func() retry.Policy { return pol }}}
+		rt := &retry.Transport{Base: srv, Policy: func() retry.Policy { return pol }}
+		if c.DefaultPolicy {
+			rt = retry.NewTransport(srv) // Policy nil: the transport falls back to retry.DefaultPolicy
+		}
+		hc := &http.Client{Transport: rt}
 		var client remote.Client = hc
 		if authClient != nil {
 			authClient.Client = hc
@@ -606,7 +612,11 @@ func execScript(t *testing.T, c *scriptCase) scriptObs {
 				}
 				repo.PlainHTTP = true
 				repo.Client = client
-				desc := ocispec.Descriptor{MediaType: "application/vnd.docker.distribution.manifest.v2+json",
+				mt := "application/vnd.docker.distribution.manifest.v2+json"
+				if c.Manifest == "I" || c.Manifest == "i" {
+					mt = ocispec.MediaTypeImageManifest // pushWithIndexing reads the content into memory first
+				}
+				desc := ocispec.Descriptor{MediaType: mt,
 					Digest: digest.Digest("sha256:" + hex.EncodeToString(sha256Sum(data))), Size: int64(len(data))}
 				var rd io.Reader = bytes.NewReader(data)
 				if c.Body == "O" {
@@ -862,7 +872,7 @@ func scriptCaseRun(t *testing.T, c *scriptCase) {
 	}
 	switch c.Body[0] {
 	case 'O':
-		if c.Manifest != "M" && firstResend > 0 {
+		if c.Manifest != "M" && c.Manifest != "I" && c.Manifest != "i" && firstResend > 0 {
 			fail("oneshot-resent", fmt.Sprintf("%d attempts with a one-shot body, attempt %d came after part of it was consumed", len(obs.log), firstResend))
 		}
 	case 'G':
@@ -1194,6 +1204,11 @@ func genScript(r *common.Rand, big bool) *scriptCase {
 	if (c.Body == "R" || c.Body == "O") && !c.UnknownLen && !c.PreAuth && c.Method == "" && r.Chance(1, 3) {
 		// manifest push through the Repository: M = auth client, m = plain retrying client
 		c.Manifest = map[string]string{"A": "M", "T": "m"}[c.Op]
+		if c.Manifest != "" && r.Chance(1, 3) {
+			// an OCI image manifest without subject (valid JSON: the client looks for a subject after the push)
+			c.Manifest = map[string]string{"M": "I", "m": "i"}[c.Manifest]
+			c.Data = hex.EncodeToString([]byte(indexedManifestJSON))
+		}
 	}
 	ns := r.Intn(2*(maxInt(c.MaxRetry, 0)+1) + 3)
 	for i := 0; i < ns; i++ {
@@ -1387,6 +1402,9 @@ func enumScripts(t *testing.T, maxLen int, allCancel bool) {
 							m := *c
 							m.UnknownLen, m.Manifest = false, map[string]string{"A": "M", "T": "m"}[op]
 							scriptCaseRun(t, &m)
+							im := m
+							im.Manifest, im.Data = map[string]string{"A": "I", "T": "i"}[op], hex.EncodeToString([]byte(indexedManifestJSON))
+							scriptCaseRun(t, &im)
 							run.Count("enumerated_manifest")
 						}
 						continue
@@ -1811,8 +1829,8 @@ func TestVerif(t *testing.T) {
 	for i := 0; i < run.Scale(400, 20000); i++ {
 		tokenScenario(t, genToken(r))
 	}
-	enumUploads(t, run.Scale(4, 6))
-	nScripts := run.Scale(2500, 500000)
+	enumUploads(t, run.Scale(4, 5))
+	nScripts := run.Scale(2500, 400000)
 	nPoints := run.Scale(20000, 4000000)
 	nBig := run.Scale(6, 200)
 	for i := 0; i < nScripts; i++ {
